@@ -200,6 +200,13 @@ def offset_provenance(ct: Container, rep, rule="offset-provenance"):
     removes = ff.ev("table_remove")
     appends = ff.ev("table_append")
     shifts = [e for e in ff.ev("field_assign") if e.field == "offset" and e.op in ("Sub", "Add")]
+    if removes and not shifts and not ff.ev("self_call") \
+            and not any(isinstance(n, ast.Attribute) and n.attr == "offset" and isinstance(n.ctx, ast.Store) for n in ast.walk(ff.f.node)):
+        # definite: nothing in remove_block assigns an entry offset, so the entries after the removed one keep pointing
+        # block-size bytes too far
+        rep.fail(rule, MOD(ct), fq, removes[0].stmt, "the entries after the removed one are never shifted (no `.offset` is assigned in remove_block): their offsets stay one block size too large after the tail moved up",
+                 construct=f"{fq} later entries not shifted")
+        return
     if not removes or not appends or not shifts:
         raise AnalysisError("Tdf.remove_block: remove / shift / append structure not found (anchor vanished)")
     rm, ap, sh = removes[0], appends[0], shifts[0]
@@ -359,6 +366,14 @@ def tail_move(ct: Container, rep, rule="tail-move-order", shift_rule="shift-cons
     truncs = ff.ev("truncate")
     flushes = ff.ev("flush")
     if not reads or not writes:
+        # definite when nothing else in remove_block could move the bytes (no call receives the handle, no other method of the
+        # file object is called): the bytes after the removed block stay where they are / are cut off by the truncate
+        if not ff.ev("handle_passed", "handle_other", "self_call") and (reads or writes or truncs):
+            what = "written back" if reads else "read"
+            at = (reads or writes or truncs)[0].stmt
+            rep.fail(rule, MOD(ct), fq, at, f"the bytes after the removed block are never {what}: the tail is not moved up over the removed block (the blocks after it are lost or left at stale offsets)",
+                     construct=f"{fq} tail never {what}")
+            return
         raise AnalysisError(f"{fq}: tail move (read / write) not found (anchor vanished)")
     if not truncs:
         rep.fail(rule, MOD(ct), fq, writes[0].stmt, "the file is not truncated after the tail was moved up: the removed block's size stays in the file as dead bytes",
